@@ -58,6 +58,9 @@ def main():
         patch = f"{V}/seeded/{sid}/patch.diff"
         if not os.path.exists(patch):
             continue
+        ported = f"{V}/seeded/{sid}/patch_fixed_tree.diff"  # hand port where a fix: commit rewrote the seeded lines
+        if os.path.exists(ported):
+            patch = ported
         wt = tempfile.mkdtemp(prefix=f"seedrun_{sid}_", dir="/tmp")
         os.rmdir(wt)
         subprocess.run(["git", "-C", "/repo", "worktree", "add", "--detach", wt, "HEAD"], capture_output=True)
